@@ -48,3 +48,17 @@ Theorem c05_ddmin_file_is_last : ltac:(let t := type of d_file_is_last in exact 
 Proof. exact d_file_is_last. Qed.
 Print Assumptions c05_ddmin_file_is_last.
 About d_no_stale. About d_chain.
+
+(* the whole ddmin strategy (Model/DdminTop.v: reduce, _apply_mutator, sequential generators): everything written was
+   accepted, and the written inputs form a chain at token level -- each is a candidate proposed for an input with the tokens
+   of its immediate predecessor (re-duplication in between does not change tokens) *)
+From DD Require Import Props.DdminTopProps.
+Theorem c05_ddmin_reduce_writes : ltac:(let t := type of top_reduce_writes in exact t).
+Proof. exact top_reduce_writes. Qed.
+Print Assumptions c05_ddmin_reduce_writes.
+Theorem c05_ddmin_reduce_chain : ltac:(let t := type of top_reduce_chain in exact t).
+Proof. exact top_reduce_chain. Qed.
+Print Assumptions c05_ddmin_reduce_chain.
+Theorem c05_ddmin_chain_nth : ltac:(let t := type of top_chain_nth in exact t).
+Proof. exact top_chain_nth. Qed.
+Print Assumptions c05_ddmin_chain_nth.
